@@ -320,6 +320,7 @@ func runStoreCase(t *rapid.T, c03, c04, c05 *ev.Collector, p storeParams) {
 				pool := gen.PoolFromEvents(world.Events, world.Authors)
 				pool.AllowEmptyTagsMap = true
 				pool.BigLimits = true
+				pool.LongLists = true
 				pool.MaxLimit = int64(min(len(s)+1, 6))
 				nq := 2
 				for q := 0; q < nq; q++ {
